@@ -126,4 +126,26 @@ META = {
                 "back-pressure are not modelled (partial). Fixed defect found here: heartbeats kept being written after close_with_error (5dd1d8c).",
         "technique": "Coq proof (timer invariants over scripts; slab invariant over histories) + extracted-model-vs-engine correspondence under virtual time",
     },
+    "C09": {
+        "text": "Theorems (Coq, closed) about the receiving-link model Link/Receiver.v: in every step either no delivery is returned or no flow is "
+                "written and the deliveries returned are taken off the credit held, and with no credit a completed delivery is refused with the "
+                "transfer-limit error; every flow reports the delivery-count and credit the link holds; in Auto(n) mode, n >= 1, a stream of any "
+                "length from a sender that sends one delivery at a time to an application that accepts each one is received completely with no "
+                "refusal. The accounting clause is refuted with a witness (a peer flow overtakes queued transfers, which are then counted twice) "
+                "and recorded as known finding c09-dc-double-count. The model is run against the real Receiver (scripted sender peer) every run.",
+        "design_ref": "DESIGN.md section 4, C09",
+        "note": "Trusted: Coq kernel, extraction, scripted-peer harness, hook reading the final link state. Known finding: c09-dc-double-count.",
+        "technique": "Coq proof (step invariants, induction over rounds; refutation witness) + extracted-model-vs-engine correspondence",
+    },
+    "C10": {
+        "text": "Theorems (Coq, closed) about Link/Receiver.v: however a delivery is cut into a first frame, any number of consistent continuation frames "
+                "(fields omitted or repeated, empty payloads) and a final frame, nothing is returned before the final frame and the final frame returns "
+                "exactly the concatenation of the payloads, once, using one credit; an aborted frame returns nothing and leaves a clean state; a "
+                "contradictory continuation is an error and the delivery is dropped. The model is run against the real Receiver on random fragmentations "
+                "(every byte offset, empty frames, abort, contradiction) and the returned message is compared byte for byte with the message sent.",
+        "design_ref": "DESIGN.md section 4, C10",
+        "note": "Trusted: Coq kernel, extraction, scripted-peer harness; message decoding itself is C03/C05. Fixed defect: after an inconsistent "
+                "continuation the remaining frames were spliced onto the kept buffer (0dd17a9).",
+        "technique": "Coq proof (induction over continuation frames) + extracted-model-vs-engine correspondence with byte comparison of messages",
+    },
 }
